@@ -5,7 +5,7 @@ EXPLANATION = ('Two threads retire nodes with stateful custom deleters (one node
                'destructors run inside the model, incl. hand-over of pending nodes); a later generation (main thread) performs the public flush. '
                'Census: every retired node was destroyed exactly once, by its own deleter; the engine also flags double frees / use after free.')
 ASSUMPTIONS = ['hazard_pointer (quick); 2 threads + flushing generation; K=2 rounds; SC only; std algorithm stubs']
-TIMEOUT = {'quick': 600, 'thorough': 3000}
+TIMEOUT = {'quick': 900, 'thorough': 3000}
 SRC = 'C02/census.cpp'
 
 
